@@ -301,3 +301,15 @@ Fixpoint clock_mono (prev : Z) (l : list obs) : bool :=
   | [] => true
   | (_, _, now) :: r => (prev <=? now) && negb (is_zero_time now) && clock_mono now r
   end.
+
+(* stability WITHOUT the exception for a recorded clock reading equal to the zero instant (what the
+   property text asks for literally "by the supplied clock"); refuted in Proofs/Selector.v *)
+Definition stability_strict_step (c : constraints) (g : ghost) (r : row) : bool :=
+  if passes c r then
+    match g_rec_time g, g_pass_mode g with
+    | Some T, Some m =>
+        if sat_sub (r_now r) T <? min_stab c then String.eqb (d_mode (r_dec r)) m else true
+    | _, _ => true
+    end
+  else true.
+Definition stability_strict (c : constraints) (t : list row) : bool := trace_ok_from stability_strict_step c ghost0 t.
